@@ -54,12 +54,11 @@ CONSTANTS N0,        \* length of the initial vector
 
 Val == {-1, 0, 1}
 (* Real element types: an element whose derivative (gradient or Hessian) is not zero is NOT a zero element even  *)
-(* when its value is 0 (nullScalar()).  Such an element is written v + 10 in both layers: 10 is "value 0 with a   *)
+(* when its value is 0 (nullScalar()).  Such an element is written v + Tag in both layers: Tag is "value 0 with a *)
 (* non-zero derivative", so that it is a non-zero element of the dense model: it is stored, visited by every      *)
 (* iteration and survives skip().  It arises from "setvar" (At(i).SetVariable / SetDerivative / SetHessian) only;  *)
 (* SetX(value) and Reset clear the derivatives again.  Sort, arithmetic and the joint iterator are not driven     *)
 (* while such an element exists (their derivative rules are another property's business).                         *)
-Tag == 10
 ValX == IF "setvar" \in Ops THEN Val \cup {v + Tag : v \in Val} ELSE Val
 NilPtr == 99
 Objs == 1..MaxObj
@@ -153,10 +152,10 @@ Write(o, i, x) ==
   /\ UNCHANGED <<cit, mit>> /\ ok' = TRUE
   /\ Record([Ev("write", o) EXCEPT !.i = i, !.x = x])
 
-NoTag(o) == \A i \in DOMAIN content[o] : content[o][i] < 5
+NoTag(o) == \A i \in DOMAIN content[o] : ~Tagged(content[o][i])
 (* v.At(i).SetVariable(..) (Real types): the element keeps its value and gets a non-zero derivative *)
 SetVar(o, i) ==
-  /\ "setvar" \in Ops /\ Alive(o) /\ i \in Idx(n[o]) /\ content[o][i] < 5 /\ Rd(vals[o], i) # NilPtr
+  /\ "setvar" \in Ops /\ Alive(o) /\ i \in Idx(n[o]) /\ ~Tagged(content[o][i]) /\ Rd(vals[o], i) # NilPtr
   /\ ValueStep(o, [content[o] EXCEPT ![i] = content[o][i] + Tag], Put(vals[o], i, Rd(vals[o], i) + Tag),
                IF Has(vals[o], i) THEN index[o] ELSE index[o] \cup {i}, sh)
   /\ UNCHANGED <<cit, mit>> /\ ok' = TRUE
